@@ -252,10 +252,10 @@ func (c *pathParser) addSeg(segString []byte) error {
 			return errParamMismatch(op)
 		}
 		if c.inPath {
+			// the next commands, if any, start a new subpath at the same initial point
 			c.close()
 			c.currentX = c.pathStartX
 			c.currentY = c.pathStartY
-			c.inPath = false
 		}
 	case 'm':
 		rel = true
